@@ -411,3 +411,186 @@ Section Sim.
       replace (fuel - S (S (length attrs))) with f by lia.
       replace (pc + S (S (length attrs))) with (S (pc + S (length attrs))) by lia. reflexivity.
   Qed.
+
+  (* ---------- outcomes ---------- *)
+
+  (* same sink and related final states, or the same error class *)
+  Definition RR (oc : list instr) (bl bl' : list nat) (r r' : rres W) : Prop :=
+    match r, r' with
+    | RDone s1 o1, RDone s1' o1' => o1' = o1 /\ SR oc bl bl' [] s1 s1'
+    | RFail e, RFail e' => e' = e
+    | _, _ => False
+    end.
+
+  (* dir = true: the original run is the one known to terminate; dir = false: the optimised *)
+  Definition live_side (dir : bool) (r r' : rres W) : Prop :=
+    if dir then r <> ROutOfFuel else r' <> ROutOfFuel.
+  Definition Q (dir : bool) (oc : list instr) (bl bl' : list nat) (r r' : rres W) : Prop :=
+    live_side dir r r' -> RR oc bl bl' r r'.
+
+  Lemma Q_fail dir oc bl bl' e : Q dir oc bl bl' (RFail e) (RFail e).
+  Proof. intros _. reflexivity. Qed.
+  Lemma Q_OO dir oc bl bl' : Q dir oc bl bl' ROutOfFuel ROutOfFuel.
+  Proof. intros H. destruct dir; exfalso; apply H; reflexivity. Qed.
+  Lemma Q_DD dir oc bl bl' s o s' o' : Q dir oc bl bl' (RDone s o) (RDone s' o') -> o' = o /\ SR oc bl bl' [] s s'.
+  Proof. intros H. apply H. destruct dir; discriminate. Qed.
+  Lemma Q_FF dir oc bl bl' e e' : Q dir oc bl bl' (RFail e) (RFail e') -> e' = e.
+  Proof. intros H. apply H. destruct dir; discriminate. Qed.
+  Lemma Q_DF dir oc bl bl' s o e : Q dir oc bl bl' (RDone s o) (RFail e) -> False.
+  Proof. intros H. apply H. destruct dir; discriminate. Qed.
+  Lemma Q_FD dir oc bl bl' s o e : Q dir oc bl bl' (RFail e) (RDone s o) -> False.
+  Proof. intros H. apply H. destruct dir; discriminate. Qed.
+  Lemma Q_xO dir oc bl bl' r : r <> ROutOfFuel -> Q dir oc bl bl' r ROutOfFuel ->
+    forall oc2 b2 b2' X, Q dir oc2 b2 b2' X ROutOfFuel.
+  Proof.
+    intros Hr H oc2 b2 b2' X Hl. destruct dir.
+    - exfalso. specialize (H Hr). destruct r; exact H.
+    - exfalso. apply Hl. reflexivity.
+  Qed.
+  Lemma Q_Ox dir oc bl bl' r' : r' <> ROutOfFuel -> Q dir oc bl bl' ROutOfFuel r' ->
+    forall oc2 b2 b2' Y, Q dir oc2 b2 b2' ROutOfFuel Y.
+  Proof.
+    intros Hr H oc2 b2 b2' Y Hl. destruct dir.
+    - exfalso. apply Hl. reflexivity.
+    - exfalso. exact (H Hr).
+  Qed.
+
+  Lemma SR_return oc bl bl' lo oc2 s1 s1' s2 s2' :
+    SR oc2 (ends s1) (ends s1') [] s2 s2' -> LR oc bl bl' lo (ends s1) (ends s1') -> SR oc bl bl' lo s2 s2'.
+  Proof.
+    intros [HB HL] H. destruct (LR_nil_inv _ _ _ _ _ HL) as [E1 E2]. split; [exact HB|].
+    rewrite E1, E2. exact H.
+  Qed.
+
+  Lemma SR_upd_blocks oc bl bl' lo s s' b cb : SR oc bl bl' lo s s' -> blocks_good good b ->
+    SR oc bl bl' lo (upd_blocks s b cb) (upd_blocks s' (blocks_opt b) cb).
+  Proof. intros [H L] Hb. split; [apply SB_upd_blocks; assumption|exact L]. Qed.
+
+  Lemma blind_fn s s' n k : SB s s' -> w_function wd n k (scope_of s') = w_function wd n k (scope_of s).
+  Proof.
+    intros H. destruct Hblind as [_ Hf]. rewrite (Hf n k (scope_of s')), (Hf n k (scope_of s)).
+    rewrite (SB_scope good _ _ H). reflexivity.
+  Qed.
+  Lemma blind_filter s s' n v k : SB s s' -> w_filter wd n v k (scope_of s') = w_filter wd n v k (scope_of s).
+  Proof.
+    intros H. destruct Hblind as [Hf _]. rewrite (Hf n v k (scope_of s')), (Hf n v k (scope_of s)).
+    rewrite (SB_scope good _ _ H). reflexivity.
+  Qed.
+
+  (* ---------- the statement proved by induction on fuel ---------- *)
+
+  Definition P (dir : bool) (fp fo : nat) : Prop :=
+    forall tpl ae depth ch lt n lo s s' o bl bl',
+      tgood tpl -> good ch -> ltable_ok ch lt -> n <= length (opt_chunk ch) ->
+      lt (group_start (opt_chunk ch) n) = Some lo ->
+      SR (opt_chunk ch) bl bl' lo s s' ->
+      Q dir (opt_chunk ch) bl bl'
+        (runP fp tpl ae depth ch (group_start (opt_chunk ch) n) s o)
+        (runO fo (opt_tpl tpl) ae depth (opt_chunk ch) n s' o).
+
+  Lemma lt_walk ch lt : ltable_ok ch lt ->
+    forall code pc lo, code_at ch pc code ->
+      Forall (fun i => forall ip l, lsucc i ip l = [(S ip, l)]) code ->
+      lt pc = Some lo -> exists lo2, lt (pc + length code) = Some lo2 /\ all2 lp_sub lo lo2 = true.
+  Proof.
+    intros [He _]. induction code as [|i code IH]; intros pc lo Hc Hs Hl.
+    - exists lo. rewrite Nat.add_0_r. split; [exact Hl|apply all2_lp_sub_refl].
+    - inversion Hs as [|i0 c0 Hi Hs']. subst.
+      destruct (He pc i lo (code_at_head _ _ _ _ Hc) Hl) as [_ Hsuc].
+      destruct (Hsuc (S pc) lo) as (lo1 & E1 & S1); [rewrite Hi; left; reflexivity|].
+      destruct (IH (S pc) lo1 (code_at_tail _ _ _ _ Hc) Hs' E1) as (lo2 & E2 & S2).
+      exists lo2. cbn [length]. replace (pc + S (length code)) with (S pc + length code) by lia.
+      split; [exact E2|exact (all2_lp_sub_trans _ _ _ S1 S2)].
+  Qed.
+
+  Section Step.
+    Variable dir : bool.
+    Variables fp fo : nat.
+
+    (* a nested run: any good chunk from its start, on related states *)
+    Lemma nested tpl ae depth c s s' o : P dir fp fo ->
+      tgood tpl -> good c -> SB s s' ->
+      Q dir (opt_chunk c) (ends s) (ends s')
+        (runP fp tpl ae depth c 0 s o) (runO fo (opt_tpl tpl) ae depth (opt_chunk c) 0 s' o).
+    Proof.
+      intros IH HT HG HS. destruct (cg_loops _ (proj1 HG)) as (lt & Hlt & H0).
+      pose proof (IH tpl ae depth c lt 0 [] s s' o (ends s) (ends s') HT HG Hlt (Nat.le_0_l _)) as H.
+      rewrite group_start_0 in H. apply H; [exact H0|]. split; [exact HS|apply LR_base].
+    Qed.
+
+    (* one fused instruction against the group it replaces *)
+    Lemma fused_step tpl ae depth ch lt n g lo s s' o bl bl' :
+      P dir (fp - gsize g) fo -> (dir = false -> gsize g <= fp) ->
+      tgood tpl -> good ch -> ltable_ok ch lt ->
+      nth_error (opt_chunk ch) n = Some g -> is_fused g = true ->
+      lt (group_start (opt_chunk ch) n) = Some lo ->
+      SR (opt_chunk ch) bl bl' lo s s' ->
+      Q dir (opt_chunk ch) bl bl'
+        (runP fp tpl ae depth ch (group_start (opt_chunk ch) n) s o)
+        (runO (S fo) (opt_tpl tpl) ae depth (opt_chunk ch) n s' o).
+    Proof.
+      intros IH Hfuel HT HG Hlt Eg Hf Elt HSR.
+      set (oc := opt_chunk ch) in *. destruct HG as [HC HK].
+      assert (HSn : S n <= length oc) by (apply nth_error_Some; congruence).
+      pose proof (group_start_succ oc n g Eg) as Hsucc.
+      destruct HSR as [HB HL].
+      destruct (cg_shape _ HC g (nth_error_In _ _ Eg) Hf) as (nm & attrs & Hm & [-> | ->]).
+      - (* LoadPath *)
+        assert (Hcode : code_at ch (group_start oc n) (LoadName nm :: map LoadAttr attrs ++ [])).
+        { eapply fused_group_code; [exact (cg_rel _ HC)|exact Eg| |constructor]. cbn. rewrite app_nil_r. reflexivity. }
+        rewrite app_nil_r in Hcode.
+        assert (Hgs : gsize (LoadPath (nm :: attrs)) = S (length attrs))
+          by (unfold gsize; cbn; rewrite map_length; reflexivity).
+        rewrite Hgs in *.
+        destruct (lt_walk ch lt Hlt _ _ lo Hcode) as (lo2 & E2 & S2); [|exact Elt|].
+        { constructor; [intros; reflexivity|]. apply Forall_forall. intros i Hi. apply in_map_iff in Hi.
+          destruct Hi as (a & <- & _). intros; reflexivity. }
+        cbn [length] in E2. rewrite map_length in E2.
+        intros Hlive.
+        assert (Hcond : S (length attrs) <= fp \/ runP fp tpl ae depth ch (group_start oc n) s o <> ROutOfFuel).
+        { destruct dir; [right; exact Hlive|left; apply Hfuel; reflexivity]. }
+        revert Hlive. rewrite (run_load_group nm attrs fp tpl ae depth ch _ s o Hcode Hm Hcond).
+        cbn [VM.run]. rewrite Eg.
+        change (load_path_v (opt_world wd)) with (load_path_v wd).
+        rewrite (load_path_chain s' nm attrs Hm), (SB_get_value good _ _ nm HB).
+        destruct (chain_v (get_value s nm) attrs) as [v|e]; [|intros _; reflexivity].
+        rewrite <- Hsucc.
+        apply (IH tpl ae depth ch lt (S n) lo2 (push s v) (push s' v) o bl bl' HT (conj HC HK) Hlt HSn).
+        + fold oc. rewrite Hsucc. exact E2.
+        + apply SR_push. split; [exact HB|exact (LR_sub _ _ _ _ _ _ _ S2 HL)].
+      - (* WritePath *)
+        assert (Hcode : code_at ch (group_start oc n) (LoadName nm :: map LoadAttr attrs ++ [WriteTop])).
+        { eapply fused_group_code; [exact (cg_rel _ HC)|exact Eg|reflexivity|repeat constructor]. }
+        assert (Hgs : gsize (WritePath (nm :: attrs)) = S (S (length attrs)))
+          by (unfold gsize; cbn; rewrite app_length, map_length; cbn; lia).
+        rewrite Hgs in *.
+        destruct (lt_walk ch lt Hlt _ _ lo Hcode) as (lo2 & E2 & S2); [|exact Elt|].
+        { constructor; [intros; reflexivity|]. apply Forall_app. split.
+          - apply Forall_forall. intros i Hi. apply in_map_iff in Hi.
+            destruct Hi as (a & <- & _). intros; reflexivity.
+          - constructor; [intros; reflexivity|constructor]. }
+        cbn [length] in E2. rewrite app_length, map_length in E2. cbn [length] in E2.
+        replace (length attrs + 1) with (S (length attrs)) in E2 by lia.
+        intros Hlive.
+        assert (Hcond : S (S (length attrs)) <= fp \/ runP fp tpl ae depth ch (group_start oc n) s o <> ROutOfFuel).
+        { destruct dir; [right; exact Hlive|left; apply Hfuel; reflexivity]. }
+        revert Hlive. rewrite (run_write_group nm attrs fp tpl ae depth ch _ s o Hcode Hm Hcond).
+        cbn [VM.run]. rewrite Eg.
+        change (write_path_v (opt_world wd)) with (write_path_v wd).
+        change (write_value W wr (opt_world wd)) with (write_value W wr wd).
+        cbn [opt_tpl t_autoescape].
+        rewrite (write_path_chain s' nm attrs Hm), (SB_get_value good _ _ nm HB).
+        destruct (chain_v (get_value s nm) attrs) as [v|e]; [|intros _; reflexivity].
+        destruct (is_undefined v); [intros _; reflexivity|].
+        pose proof (write_value_rel good W wr wd oc bl bl' lo
+                      (match ae with Some b => b | None => t_autoescape tpl end) s s' o v (conj HB HL)) as HW.
+        destruct (write_value W wr wd _ s o v) as [[s2 o2]|], (write_value W wr wd _ s' o v) as [[s2' o2']|];
+          try contradiction; [|intros _; reflexivity].
+        destruct HW as [-> [HB2 HL2]].
+        rewrite <- Hsucc.
+        apply (IH tpl ae depth ch lt (S n) lo2 s2 s2' o2 bl bl' HT (conj HC HK) Hlt HSn).
+        + fold oc. rewrite Hsucc. exact E2.
+        + split; [exact HB2|exact (LR_sub _ _ _ _ _ _ _ S2 HL2)].
+    Qed.
+  End Step.
+End Sim.
